@@ -24,3 +24,8 @@ def _bt_laws(ctx):
 BOUNDED = BOUNDED + [_bt_laws]
 
 VALIDATION = (globals().get('VALIDATION') or []) + [validate_ir]
+
+FUNCTIONS = FUNCTIONS + [q for q in [q for q in PARSE_SMALL if q.endswith("parse_pseudo_open")] if q not in FUNCTIONS]
+STRUCTURAL = (globals().get('STRUCTURAL') or []) + [dispatch_structural]
+TRUSTED = list(TRUSTED) + [A_TOK]
+ASSUMPTIONS = TRUSTED
